@@ -45,7 +45,7 @@ func main() {
 		defer side.Done()
 		drv, err := lib.StartDriver(f.Driver)
 		if err != nil {
-			res.Note("driver: %v", err)
+			res.Fatalf("driver: %v", err)
 			return
 		}
 		t0 := time.Now()
@@ -62,6 +62,17 @@ func main() {
 	tTamper := time.Now()
 	for _, dstNew := range []bool{false, true} {
 		runOldRootDirected(f, res, dstNew)
+		runDowngradeDirected(f, res, dstNew)
+	}
+	// fault injection into Store's batch: the all-kinds middle block of chain 0 and of the Pedersen chain
+	for _, chain := range []int{0, 100} {
+		if fg, err := buildChain(f, chainTask{Chain: chain}); err != nil {
+			res.Fatalf("generator (fault injection): %v", err)
+		} else {
+			for _, dstNew := range []bool{false, true} {
+				runFaultInjection(f, res, fg, dstNew, (len(fg.Bundles)-1)/2)
+			}
+		}
 	}
 	nChains := f.Scale(4, 12)
 	workers := runtime.NumCPU()
@@ -133,14 +144,14 @@ func checkpoint(f lib.Flags, res *lib.Result) {
 func runReplay(f lib.Flags, res *lib.Result) {
 	raw, err := os.ReadFile(f.Replay)
 	if err != nil {
-		res.Note("replay: %v", err)
+		res.Fatalf("replay: %v", err)
 		return
 	}
 	var doc struct {
 		Replay replay `json:"replay"`
 	}
 	if err := json.Unmarshal(raw, &doc); err != nil {
-		res.Note("replay: %v", err)
+		res.Fatalf("replay: %v", err)
 		return
 	}
 	rp := doc.Replay
